@@ -267,14 +267,15 @@ func (w *Worker) canonicalize(o Outcome, base int, parent func(int) (Value, bool
 		c.fresh = append(c.fresh, r.rewrite(st.get(old)))
 	}
 	var sb strings.Builder
-	shapeSig(&sb, c.ret)
+	conc := w.mergeConcrete
+	shapeSigM(&sb, c.ret, conc)
 	for _, id := range c.modified {
 		fmt.Fprintf(&sb, "|m%d:", id)
-		shapeSig(&sb, c.modVals[id])
+		shapeSigM(&sb, c.modVals[id], conc)
 	}
 	for _, v := range c.fresh {
 		sb.WriteString("|f:")
-		shapeSig(&sb, v)
+		shapeSigM(&sb, v, conc)
 	}
 	sb.WriteString("|t:" + strings.Join(st.trail, ","))
 	fmt.Fprintf(&sb, "|o%d", len(st.obs))
